@@ -440,3 +440,87 @@ def run_defaults(ctx) -> RuleResult:
                         construct=f"{func.name}: default of {name}"))
     result.floor = 60
     return result
+
+
+def _dealign(ctx, module, expr):
+    """``align_*(a, b, ...)[i]`` denotes the i-th argument (alignment changes representation only)."""
+    import copy
+
+    class T(ast.NodeTransformer):
+        def visit_Subscript(self, node):
+            self.generic_visit(node)
+            if isinstance(node.value, ast.Call) and isinstance(node.slice, ast.Constant) and isinstance(node.slice.value, int):
+                name = ctx.dotted(module, node.value.func) or ""
+                if name.rsplit(".", 1)[-1] in ("align_polynomials", "align_exponents", "align_indeterminants", "align_shape", "align_dtype") \
+                        and 0 <= node.slice.value < len(node.value.args) \
+                        and not any(isinstance(a, ast.Starred) for a in node.value.args):
+                    return node.value.args[node.slice.value]
+            return node
+
+        def visit_Call(self, node):
+            self.generic_visit(node)
+            name = ctx.dotted(module, node.func) or ""
+            if name.rsplit(".", 1)[-1] in ("aspolynomial",) and len(node.args) == 1 and not node.keywords:
+                return node.args[0]
+            return node
+
+    return T().visit(copy.deepcopy(expr))
+
+
+def run_dtypekw(ctx) -> RuleResult:
+    """A ``dtype=`` keyword handed to a numpy / numpoly function whose data argument was computed from two operands
+    must not be the dtype of one of them: products and sums of mixed dtypes are truncated (int * float) or lose
+    their imaginary part (real * complex) when forced into the first operand's dtype."""
+    import re
+
+    result = RuleResult(
+        "R-DTYPEKW",
+        "a dtype= keyword on data computed from several operands is not the dtype of a single one of them",
+    )
+    n = 0
+    for module, qual, func in ctx.repo.analysed_functions():
+        if module.is_pyx:
+            continue
+        text = U(func)
+        if "dtype=" not in text or ".dtype" not in text:
+            continue
+        params = [a.arg for a in func.args.posonlyargs + func.args.args]
+        seen = set()
+        for path in ctx.paths_auto(module, func):
+            for step in path:
+                for raw in step_exprs(step):
+                    for call in calls_in(raw):
+                        dt = kwarg(call, "dtype")
+                        if dt is None or not call.args:
+                            continue
+                        name = ctx.dotted(module, call.func) or ""
+                        if not name.startswith(("numpy.", "numpoly.")):
+                            continue
+                        dtext = U(_dealign(ctx, module, strip_tags(step.expand(dt))))
+                        if not dtext.endswith(".dtype"):
+                            continue
+                        dparams = set(re.findall(r"π(\w+)", dtext))
+                        data = U(_dealign(ctx, module, strip_tags(step.expand(call.args[0]))))
+                        # operands of the data: parameters that occur as operands of arithmetic on both sides
+                        aparams = {p for p in re.findall(r"π(\w+)", data) if p in params}
+                        key = (id(call), dtext, data)
+                        if len(dparams) != 1 or key in seen:
+                            continue
+                        seen.add(key)
+                        others = aparams - dparams
+                        combined = bool(others) and bool(dparams & aparams) and any(
+                            op in data for op in ("multiply(", "add(", "subtract(", " * ", " + ", " - ", "matmul(", "outer(", "inner("))
+                        n += 1
+                        result.ob(f"{module.name}.{qual}: dtype= of {name.rsplit('.', 1)[-1]} is not one operand's dtype while the data "
+                                  f"combines several", not combined, module.loc(step.orig), f"dtype={dtext[:50]}")
+                        if combined:
+                            result.add(Finding(
+                                "R-DTYPEKW", module, qual, call,
+                                f"'{U(call)[:90]}' forces the dtype of '{sorted(dparams)[0]}' on data computed from "
+                                f"{sorted(aparams)}: with mixed dtypes (integer and float, real and complex) the combined values are "
+                                f"truncated or lose their imaginary part instead of taking numpy's promoted dtype",
+                                derivation=describe_path(path), construct=f"{qual}: dtype of one operand on combined data"))
+    result.ob("rule scanned every dtype= keyword whose value is <operand>.dtype", True, "<all functions>", f"{n} site(s)")
+    result.info["dtype_keyword_sites"] = n
+    result.floor = 1
+    return result
